@@ -1113,7 +1113,16 @@ fn check(prop: &str, tier: &str) -> i32 {
             "simulated": ["clients and their scripts", "network (delivery order, duplication, delay)", "Node<N> type definitions (type_info reads the run's specification)", "Read / Write / Input seams (chunking, short reads, EINTR, I/O errors, unknown remaining length)", "storage medium with fault sequences"],
         },
         "harness_version": HARNESS_VERSION,
+        "how_to_reproduce_a_run": "sim/target/release/sim dump <engine> <VERIF_SEED> <run index> prints the complete scenario of any run of this batch (for engines named x@min use sim/target-min/release/sim); a violation writes a minimised scenario to replays/ and ./check replay <file> re-executes it",
     });
+    if prop == "C14" {
+        let sweep: BTreeMap<&String, &u64> = total.probes.iter().filter(|(k, _)| k.starts_with("sweep.")).collect();
+        coverage["single_fault_sweep"] = json!({
+            "exhaustive_per_swept_frame": true,
+            "frame_population": "sampled (first frame of at most 2048 bytes of each sweep run index)",
+            "counts": sweep,
+        });
+    }
     for (k, v) in extra_distinct {
         coverage[k] = json!(v);
     }
